@@ -334,6 +334,7 @@ def _attribute_names(nf, acc=None):
 
 
 def rule_occurrence(ck, F, X):
+    fde.register_constants(F)
     n_foreign = 0
     CE = og.CallExpander(F)
     CEM = og.CallExpander(F, general_matches=True)
@@ -694,7 +695,8 @@ def rule_dispatch(ck, F, X):
             if e.get("k") not in ("Call", "MethodCall"):
                 return
             stars = [c for c in ctx if c[0] == "star"]
-            if not any(isinstance(st[1], tuple) and st[1][0] == "call" and str(st[1][1]).rsplit("::", 1)[-1] == "children" for st in stars):
+            over_children = any(isinstance(st[1], tuple) and st[1][0] == "call" and str(st[1][1]).rsplit("::", 1)[-1] == "children" for st in stars)
+            if not stars:
                 return
             for c in ctx:
                 if c[0] != "alt" or c[2] is not True:
@@ -702,6 +704,10 @@ def rule_dispatch(ck, F, X):
                 cond = CE_.expand(c[1])     # `has_tag(n, "sequence")` is the comparison it makes
                 cs = og.nf_str(cond)
                 if "tag_name" not in cs:
+                    continue
+                # .. inside an iteration over children(), or — a walk with a work list of its own — on a node drawn from an iterator
+                # (`stack.last_mut()?.find(Node::is_element)`) inside a loop
+                if not over_children and not re.search(r"tag_name\((Some⟨)?(find|next|next_back|pop|find_map)\(", cs):
                     continue
                 if cond[0] == "islet":
                     for lit in re.findall(r"'([^']*)'", cond[1]):
@@ -1037,12 +1043,44 @@ def rule_merge_keeps_components(ck, F):
         ck.undecided("R5", "merge", "-", f"the merge function `fn(&mut RustDocument, RustDocument)` could not be attributed uniquely ({[m['path'] for m in merges]})")
         return
     comp_fields = [f["name"] for f in st["variants"][0]["fields"] if "Vec<" in f["ty"] and ("RustNode" in f["ty"] or "model::soap::" in f["ty"])]
+    primary = {f["name"] for f in st["variants"][0]["fields"] if A._norm_ty(f["ty"]).startswith("std::vec::Vec<")}
     b = F.lib.body(merges[0]["path"])
     B = M.Body(b)
     short = merges[0]["path"].rsplit("::", 1)[-1]
     whole = ("Vec::<T, A>::extend", "iter::Extend::extend", "Vec::<T, A>::append", "Vec::<T, A>::extend_from_slice")
+    # .. or one by one: a loop over the incoming list, every element of which is pushed onto the receiver's (through a method of the
+    # document that keeps an index of the list in step, for instance); what is written in such a loop besides is kept in step with it
+    from engine.rulekit import inline as I
+    IB = I.inlined_body(F.lib, merges[0]["path"])
+    one_by_one = {}
+    if IB is not None:
+        for bb, t in IB.calls():
+            if not (M.Body.callee_decl(t) or "").endswith("Iterator::next") or t.get("target") is None:
+                continue
+            src = M.trace(IB, t["args"][0], M.IDENTITY_CALLS + ("IntoIterator::into_iter",))
+            if not (src and all(o.kind == "arg" and o.local == 2 and len(o.fields()) == 1 for o in src)):
+                continue
+            from_fld = src[0].fields()[0]
+            cyc = {x for x in IB.reachable_from(t["target"]) if bb in IB.reachable_from(x)} | {bb}
+            pushes, written = [], set()
+            for x in cyc:
+                tx = IB.term(x)
+                if tx.get("k") != "call" or not tx.get("args"):
+                    continue
+                dx = M.Body.callee_decl(tx) or ""
+                recv = M.trace(IB, tx["args"][0], M.IDENTITY_CALLS + ("HashMap::<K, V, S>::entry", "Entry::<'a, K, V>::or_default", "Entry::<'a, K, V>::or_insert_with",
+                                                               "BTreeMap::<K, V, A>::entry", "Entry::<'a, K, V, A>::or_default"))
+                for o in recv:
+                    if o.kind == "arg" and o.local == 1 and o.fields() and dx.endswith(scans.MUTATING):
+                        written.add(o.fields()[0])
+                        if dx.endswith("Vec::<T, A>::push") and o.fields() == [from_fld] and len(tx["args"]) == 2 and \
+                                any(oo.kind == "call" and oo.bb == bb for oo in M.trace(IB, tx["args"][1], M.IDENTITY_CALLS)):
+                            pushes.append(x)
+            # every round pushes: no way from the element back to the loop head that avoids the push
+            if len(pushes) == 1 and bb not in IB.reachable_from(t["target"], avoid=[pushes[0]]) - {pushes[0]}:
+                one_by_one[from_fld] = written
     for fld in comp_fields:
-        ok = False
+        ok = fld in one_by_one or (fld not in primary and any(fld in w for w in one_by_one.values()))
         for bb, t in B.calls():
             d = M.Body.callee_decl(t) or ""
             if not d.endswith(whole) or len(t["args"]) < 2:
